@@ -51,10 +51,15 @@ def rule_oracle(rl, st, tr):
         if rl.get('target_kind') == 'Angle' and target - brake <= 1e-9 * max(target, brake):
             return ('skip', 'Angle target smaller than the braking angle: the braking start is not an Angle (ValueError)')
         start = target - brake + k * brake
-        if abs(x - start) <= 1e-9 * max(sc, abs(start)):
+        if not st.get('exact') and abs(x - start) <= 1e-9 * max(sc, abs(start)):
             return ('skip', 'position within rounding of the braking start')
         return ('val', 1 - (x - start) / brake) if x >= start else ('none',)
-    if abs(x - target) <= 1e-9 * sc:
+    if st.get('exact'):
+        pass
+    elif rl.get('eq_init') and st.get('j') == 0:
+        # the target is the very quantity the shaft was started at (same number, same unit): theta <= target holds exactly
+        x = target
+    elif abs(x - target) <= 1e-9 * sc:
         return ('skip', 'position within rounding of the target')
     if t == 'prop':
         pm = rl['mult'] * (1 / eta_total(tr) * (st['first_load0'] / m['tmax']) * ((m['imax'] - m['i0']) / m['imax']) + m['i0'] / m['imax'])
@@ -135,7 +140,7 @@ def states_of(tr):
     n = n_inst(tr)
     out = []
     for j in range(n):
-        out.append({'t': tr['time'][j], 'tu': tr['time_units'][j], 'pos': [e['angular position'][j] for e in tr['els']],
+        out.append({'j': j, 't': tr['time'][j], 'tu': tr['time_units'][j], 'pos': [e['angular position'][j] for e in tr['els']],
                     'speed': [e['angular speed'][j] for e in tr['els']], 'load0': tr['els'][0]['load torque'][j],
                     'first_load0': tr['els'][0]['load torque'][0]})
     return out
@@ -361,6 +366,23 @@ def run_controlled(ctx, props, quick=120, thorough=4000):
         op2, _, _ = gen.run_op(rng, dt_si=dt, steps=(total, total), unit='sec')
         spec['ops'] = [op, {'op': 'reset'}, {'op': 'init', 'pos': spec['init']['pos'], 'speed': spec['init']['speed']}, op2]
         specs.append(spec)
+    # a current-limited start whose target is exactly the position the shaft starts at: 'while theta <= target' includes it
+    for _ in range(ctx.budget(10, 150)):
+        spec = gen.gen_spec(rng, random_units=rng.random() < 0.7, sl_bias=0.0, currents=True, max_stages=2)
+        if sif('Current', spec['motor']['i0']) <= 0:
+            continue
+        dt = 2.0 ** -rng.randint(3, 6)
+        total = rng.randint(3, 8)
+        spec['init'].pop('pos_kind', None)
+        spec['init']['pos'] = [gen.dy(rng, 0.25, 40, 3), spec['init']['pos'][1]]
+        spec['init']['speed'] = gen.in_unit(rng, 'AngularSpeed', abs(sif('AngularSpeed', spec['init']['speed'])) * 0.1, True)
+        spec['load']['coef'] = [abs(spec['load']['coef'][0]), 0.0, 0.0, 0.0, 0.0]
+        i0, imax = sif('Current', spec['motor']['i0']), sif('Current', spec['motor']['imax'])
+        spec['rules'] = [{'type': 'limit', 'enc': len(spec['elems']), 'tach': 0, 'target': list(spec['init']['pos']), 'eq_init': True,
+                          'ilim': gen.in_unit(rng, 'Current', rng.uniform(i0 * 1.2 + 0.01, imax * 0.8), True)}]
+        op, _, _ = gen.run_op(rng, dt_si=dt, steps=(total, total), unit='sec')
+        spec['ops'] = [op]
+        specs.append(spec)
     # the efficiency of a mating declared again between two simulations that re-use the same rule objects
     from harness import sim_props as _sp
     for _ in range(ctx.budget(12, 200)):
@@ -405,6 +427,57 @@ def run_C14(ctx):
 
 def run_C15(ctx):
     run_controlled(ctx, ['C15'])
+    proposal_cases(ctx)
+
+
+def eval_proposal(ctx, case):
+    """one rule asked for its proposal by hand, every number a small dyadic in SI units so that the documented
+    thresholds are hit exactly: 'once theta >= theta_s' and 'while theta <= target' include the equality"""
+    import gearpy.units as U
+    spec = sim_props.tiny_chain()
+    spec['motor'].update({'i0': [0.25, 'A'], 'imax': [4.0, 'A']})
+    b = sim.build(spec)
+    rl = case['rule']
+    rule = sim.make_rule(b, rl)
+    b.motor.load_torque = U.Torque(case['load'], 'Nm')
+    for e in b.E:
+        e.angular_position = U.AngularPosition(case['pos'], 'rad')
+        e.angular_speed = U.AngularSpeed(case['speed'], 'rad/s')
+    try:
+        got = rule.apply()
+        got = ('none',) if got is None else ('val', float(got))
+    except Exception as ex:  # noqa: BLE001
+        got = ('err', type(ex).__name__)
+    tr = {'motor': {'tmax': 1.0, 'w0': 100.0, 'i0': 0.25, 'imax': 4.0}, 'n': 2, 'effs': [1.0, 1.0], 'spur': [False, True]}
+    st = {'exact': True, 't': 0.0, 'tu': 'sec', 'pos': [case['pos']] * 2, 'speed': [case['speed']] * 2, 'load0': case['load'],
+          'first_load0': case['load']}
+    exp = rule_oracle(rl, st, tr)
+    ctx.case_done(case, nontrivial=True)
+    ctx.count(f"proposal {rl['type']} " + ('at the threshold' if case.get('edge') else 'off the threshold') + ' -> ' + exp[0])
+    ok = (got[0] == exp[0] == 'none') or (got[0] == exp[0] == 'val' and near(got[1], exp[1], 1.0, 1e-12))
+    if not ok:
+        ctx.violation(case, {'why': f"the rule proposed {got}, documented {exp} (position {case['pos']} rad, load {case['load']} Nm)"})
+
+
+def proposal_cases(ctx):
+    rng = ctx.rng
+    for _ in range(ctx.budget(120, 2500)):
+        t = rng.choice(['reach', 'reach', 'prop', 'limit'])
+        load = rng.choice([0.0, 0.125, 0.25, 0.5])
+        target = rng.randint(8, 200) / 4
+        brake = rng.randint(1, 28) / 4
+        edge = rng.random() < 0.5
+        off = 0.0 if edge else rng.choice([-1, 1]) * rng.randint(1, 64) / 64
+        if t == 'reach':
+            rl = {'type': 'reach', 'enc': rng.randrange(2), 'target': [target, 'rad'], 'brake': [brake, 'rad']}
+            pos = target - brake + load * brake + off
+        elif t == 'prop':
+            rl = {'type': 'prop', 'enc': rng.randrange(2), 'target': [target, 'rad'], 'mult': rng.choice([1.25, 1.5, 2.0]), 'pmin': 0.25}
+            pos = target + off
+        else:
+            rl = {'type': 'limit', 'enc': rng.randrange(2), 'tach': 0, 'target': [target, 'rad'], 'ilim': [rng.choice([1.0, 2.0, 3.0]), 'A']}
+            pos = target + off
+        eval_proposal(ctx, {'t': 'proposal', 'rule': rl, 'pos': pos, 'speed': rng.randint(0, 64) / 4, 'load': load, 'edge': edge})
 
 
 def setter_cases(ctx):
@@ -450,7 +523,9 @@ def setter_cases(ctx):
 
 def replay(ctx, case, props):
     sim_props.prep()
-    if case.get('t') == 'ctl':
+    if case.get('t') == 'proposal':
+        eval_proposal(ctx, case)
+    elif case.get('t') == 'ctl':
         eval_controlled(ctx, [case['spec']], props)
 
 
